@@ -14,79 +14,88 @@ use std::sync::{Arc, Mutex};
 
 const SOURCES: &[&str] = &[
     "%let a=%eval(1+2);",
-    "%m(a=1, b /*c*/ = 'x''y', %n(z) =2) x;",
-    "data a; x='it''s'; y=\"q&v.\"; run;",
+    "%m(a=1, b /*c*/ ='x''y') x;",
+    "x='it''s';\ny=\"q&v.\";",
     "%m (1) %m b",
-    "datalines;\n1 2\nab;c\n;\nx=1;",
-    "%do i=1 %to 3; %put &&v&i; %end;",
-    "a='4142'x; b=1.5e3; c=0ffx; d=18446744073709551616;",
-    "%if &a eq 1 %then %do; *c; %end; %else %str(%'a%);",
-    "\u{feff}é='ü' /* ж */; %macro m(p=1)/des='d'; &p %mend;",
-    ";;;;;;;;;;;;;;;;",
-    "%l: %goto l; %x: y",
+    "cards;\n1\n;\nx=1;",
+    "a='41'x; b=1.5e3; c=0ffx;",
+    "\u{feff}é='ü'; %l: %x: y",
+    "%str(%'a%);;;;;;",
 ];
 
-fn dump(src: &str, r: &LexResult) -> String {
-    use std::fmt::Write;
-    let mut s = String::new();
+/// Cheap order-sensitive hash of everything the result exposes (formatting is far too
+/// slow under Miri).
+struct H(u64);
+impl H {
+    fn u(&mut self, v: u64) {
+        self.0 = (self.0 ^ v).wrapping_mul(0x0000_0100_0000_01B3).rotate_left(23) ^ 0x9E37_79B9;
+    }
+    fn s(&mut self, v: &str) {
+        self.u(v.len() as u64);
+        for b in v.bytes() {
+            self.u(u64::from(b));
+        }
+    }
+    fn r<T>(&mut self, v: Result<T, sas_lexer::error::ErrorKind>, f: impl FnOnce(T) -> u64) {
+        match v {
+            Ok(x) => self.u(f(x)),
+            Err(e) => self.u(0xFFFF_0000 | e as u64),
+        }
+    }
+}
+
+fn dump(src: &str, r: &LexResult) -> u64 {
+    let mut h = H(0xCBF2_9CE4_8422_2325);
     let b = &r.buffer;
     for (t, info) in b.iter_tokens_infos() {
-        let _ = write!(
-            s,
-            "{} {} {} {} {} {} ",
-            t.get(),
-            info.channel() as u8,
-            info.token_type() as u16,
-            info.byte_offset().get(),
-            info.start().get(),
-            info.line()
-        );
+        h.u(u64::from(t.get()));
+        h.u(info.channel() as u64);
+        h.u(info.token_type() as u64);
+        h.u(u64::from(info.byte_offset().get()));
+        h.u(u64::from(info.start().get()));
+        h.u(u64::from(info.line()));
         match info.payload() {
-            Payload::None => s.push('-'),
-            Payload::Integer(i) => {
-                let _ = write!(s, "i{i}");
-            }
-            Payload::Float(f) => {
-                let _ = write!(s, "f{:x}", f.to_bits());
-            }
+            Payload::None => h.u(0),
+            Payload::Integer(i) => h.u(i ^ 1),
+            Payload::Float(f) => h.u(f.to_bits() ^ 2),
             Payload::StringLiteral(a, z) => {
-                let _ = write!(s, "s{a}:{z}:{:?}", b.get_string_literal(a, z));
+                h.u(u64::from(a) << 32 | u64::from(z));
+                h.r(b.get_string_literal(a, z), |s| s.len() as u64);
             }
         }
-        let _ = write!(
-            s,
-            " {:?} {:?} {:?} {:?} {:?} {:?} {:?}",
-            b.get_token_end(t).map(|v| v.get()),
-            b.get_token_end_byte_offset(t).map(|v| v.get()),
-            b.get_token_end_line(t),
-            b.get_token_start_column(t),
-            b.get_token_end_column(t),
-            b.get_token_raw_text(t, &src),
-            b.get_token_resolved_text(t, &src),
-        );
-        s.push('\n');
+        h.r(b.get_token_end(t), |v| u64::from(v.get()));
+        h.r(b.get_token_end_byte_offset(t), |v| u64::from(v.get()));
+        h.r(b.get_token_end_line(t), u64::from);
+        h.r(b.get_token_start_column(t), u64::from);
+        h.r(b.get_token_end_column(t), u64::from);
+        h.r(b.get_token_raw_text(t, &src), |v| v.map_or(0, |x| x.len() as u64 + 1));
+        match b.get_token_resolved_text(t, &src) {
+            Ok(Some(x)) => h.s(x),
+            Ok(None) => h.u(7),
+            Err(e) => h.u(e as u64),
+        }
     }
     for rt in b.into_resolved_token_vec() {
-        let _ = writeln!(
-            s,
-            "r {} {} {} {} {} {} {} {}",
-            rt.token_index, rt.start, rt.stop, rt.line, rt.column, rt.end_line, rt.end_column, rt.token_type as u16
-        );
+        h.u(u64::from(rt.token_index));
+        h.u(u64::from(rt.start));
+        h.u(u64::from(rt.stop));
+        h.u(u64::from(rt.line));
+        h.u(u64::from(rt.column));
+        h.u(u64::from(rt.end_line));
+        h.u(u64::from(rt.end_column));
+        h.u(rt.token_type as u64);
     }
-    let _ = writeln!(s, "lit {:?} lines {}", b.string_literals_buffer(), b.line_count());
+    h.s(b.string_literals_buffer());
+    h.u(u64::from(b.line_count()));
     for e in &r.errors {
-        let _ = writeln!(
-            s,
-            "e {} {} {} {} {} {:?}",
-            e.error_kind() as u16,
-            e.at_byte_offset(),
-            e.at_char_offset(),
-            e.on_line(),
-            e.at_column(),
-            e.last_token().map(|t| t.get())
-        );
+        h.u(e.error_kind() as u64);
+        h.u(u64::from(e.at_byte_offset()));
+        h.u(u64::from(e.at_char_offset()));
+        h.u(u64::from(e.on_line()));
+        h.u(u64::from(e.at_column()));
+        h.u(e.last_token().map_or(u64::MAX, |t| u64::from(t.get())));
     }
-    s
+    h.0
 }
 
 struct Crash;
@@ -121,7 +130,7 @@ fn main() {
     }));
     let nthreads = 4usize;
     // reference: alone, on the main thread, before anything else
-    let reference: Vec<String> = SOURCES
+    let reference: Vec<u64> = SOURCES
         .iter()
         .map(|s| dump(s, &lex_program(s).expect("lex")))
         .collect();
@@ -136,7 +145,7 @@ fn main() {
         let shared_src = shared_src.clone();
         handles.push(std::thread::spawn(move || {
             let mut bad = 0u32;
-            for k in 0..3usize {
+            for k in 0..2usize {
                 let i = (t * 2 + k * 3) % SOURCES.len();
                 let src = SOURCES[i].to_string();
                 if k == 1 {
@@ -170,7 +179,47 @@ fn main() {
             bad
         }));
     }
-    let bad: u32 = handles.into_iter().map(|h| h.join().expect("thread")).sum();
+    let mut bad: u32 = handles.into_iter().map(|h| h.join().expect("thread")).sum();
+    // phase 2: every thread walks the SAME multi-line results at the same time, starting
+    // at different tokens (results are used from other threads than the one that made them)
+    let multi: Vec<(usize, Arc<LexResult>)> = [2usize, 4]
+        .iter()
+        .map(|&i| (i, Arc::new(lex_program(&SOURCES[i]).expect("lex"))))
+        .collect();
+    let multi = Arc::new(multi);
+    let mut handles = Vec::new();
+    for t in 0..nthreads {
+        let multi = multi.clone();
+        let reference = reference.clone();
+        handles.push(std::thread::spawn(move || {
+            let mut bad = 0u32;
+            for round in 0..2 {
+                let (i, res) = &multi[(t + round) % multi.len()];
+                // per-token accessors from a thread-specific starting token
+                let n = res.buffer.token_count();
+                let mut seen = 0u64;
+                for k in 0..n {
+                    let idx = (k + t as u32 * 3) % n;
+                    let tok = res.buffer.iter_tokens().nth(idx as usize).expect("token");
+                    let a = res.buffer.get_token_end_line(tok).expect("end line");
+                    let c = res.buffer.get_token_end_column(tok).expect("end col");
+                    let b = res.buffer.get_token_start_line(tok).expect("line");
+                    if a < b {
+                        eprintln!("MISMATCH thread {t}: token {idx} ends on line {a} before it starts on {b}");
+                        bad += 1;
+                    }
+                    seen += u64::from(a) + u64::from(c);
+                }
+                let _ = seen;
+                if dump(SOURCES[*i], res) != reference[*i] {
+                    eprintln!("MISMATCH thread {t} walking shared multi-line result {i}");
+                    bad += 1;
+                }
+            }
+            bad
+        }));
+    }
+    bad += handles.into_iter().map(|h| h.join().expect("thread")).sum::<u32>();
     if bad > 0 {
         eprintln!("c19miri: {bad} mismatches");
         std::process::exit(1);
